@@ -5,6 +5,12 @@
 use std::io::Write;
 
 pub mod util;
+#[path = "/repo/glonax-input/src/joystick.rs"]
+pub mod joystick;
+#[path = "/repo/glonax-input/src/gamepad.rs"]
+pub mod gamepad;
+#[path = "/repo/glonax-input/src/input.rs"]
+pub mod input;
 pub mod wire;
 pub mod bus;
 pub mod authrig;
@@ -28,6 +34,7 @@ mod c14;
 mod c15;
 mod c16;
 pub mod c17;
+mod c18;
 mod c20;
 
 pub struct Opts {
@@ -84,6 +91,7 @@ fn main() {
         "c15" => (c15::gen, c15::exec),
         "c16" => (c16::gen, c16::exec),
         "c17" => (c17::gen, c17::exec),
+        "c18" => (c18::gen, c18::exec),
         "c20" => (c20::gen, c20::exec),
         _ => { eprintln!("unknown property {}", prop); std::process::exit(2); }
     };
